@@ -212,6 +212,28 @@ func ruleA7(c *Ctx, rule string) {
 		}
 		if pathAvoiding(fn, region, 0, b, len(b.Instrs)-1, isTraverse) {
 			if k, isK := ret.Results[0].(*ssa.Const); isK && k.IsNil() {
+				// the cycle guard: the alias target is the very map this merge sits in (reached through
+				// Parent) — its entries are the ones already being looked at, nothing is left out
+				selfMerge := false
+				dominatingConds(b, func(cond ssa.Value, taken bool, at *ssa.BasicBlock) {
+					bo, ok := cond.(*ssa.BinOp)
+					if !ok || (bo.Op != token.EQL && bo.Op != token.NEQ) || (bo.Op == token.EQL) != taken {
+						return
+					}
+					for _, pr := range [][2]ssa.Value{{bo.X, bo.Y}, {bo.Y, bo.X}} {
+						if parentChainValue(pr[0]) == nil {
+							continue
+						}
+						if u, ok := pr[1].(*ssa.UnOp); ok && u.Op == token.MUL {
+							if fa, ok := u.X.(*ssa.FieldAddr); ok && fieldName(fa) == "Alias" {
+								selfMerge = true
+							}
+						}
+					}
+				})
+				if selfMerge {
+					continue
+				}
 				bad = c.P.pos(ret.Pos())
 			}
 		}
